@@ -69,20 +69,27 @@ def ktype(name):
 
 # ----------------------------------------------------------------------------- generator
 
-_entry = st.one_of(
-    st.builds(
-        lambda hosts, key, style: {"k": "entry", "hosts": hosts, "salt": None, "key": key, "sep": [" ", "\t"][style % 2], "comment": ["", "", " root@somewhere", "\tadded by harness"][style // 2]},
-        st.lists(st.sampled_from(HOSTS), min_size=1, max_size=4, unique=True),
-        st.sampled_from(KEYNAMES),
-        st.integers(0, 7),
-    ),
-    st.builds(
-        lambda host, salt, key: {"k": "entry", "hosts": [host], "salt": salt, "key": key, "sep": " ", "comment": ""},
-        st.sampled_from(HOSTS),
-        st.binary(min_size=20, max_size=20),
-        st.sampled_from(KEYNAMES),
-    ),
-)
+_salt = st.binary(min_size=20, max_size=20)
+
+
+@st.composite
+def _entry_st(draw):
+    """One key line. Every name of the line is plain or hashed on its own: all plain (1-4 names), all hashed (1-3
+    names, each with its own salt), or mixed (2-4 names, a generated plain/hashed flag per name)."""
+    form = draw(st.sampled_from(["plain", "plain", "hashed", "mixed"]))
+    lo, hi = {"plain": (1, 4), "hashed": (1, 3), "mixed": (2, 4)}[form]
+    hosts = draw(st.lists(st.sampled_from(HOSTS), min_size=lo, max_size=hi, unique=True))
+    if form == "plain":
+        salts = [None] * len(hosts)
+    elif form == "hashed":
+        salts = [draw(_salt) for _ in hosts]
+    else:
+        salts = [draw(_salt) if draw(st.booleans()) else None for _ in hosts]
+    style = draw(st.integers(0, 7))
+    return {"k": "entry", "hosts": hosts, "salts": salts, "key": draw(st.sampled_from(KEYNAMES)), "sep": [" ", "\t"][style % 2], "comment": ["", "", " root@somewhere", "\tadded by harness"][style // 2]}
+
+
+_entry = _entry_st()
 _JUNK = [
     "",
     "# a comment line",
@@ -95,12 +102,24 @@ _JUNK = [
     "@MISMATCH",  # replaced at render time: "b ssh-ed25519 <rsa blob>"
 ]
 _junk = st.builds(lambda t: {"k": "junk", "text": t}, st.sampled_from(_JUNK))
-file_st = st.lists(st.one_of(_entry, _entry, _entry, _junk), min_size=1, max_size=15)
+# 3 key lines : 1 junk line (st.one_of would merge repeated strategy objects, hence the index)
+file_st = st.lists(st.integers(0, 3).flatmap(lambda i: _junk if i == 0 else _entry), min_size=1, max_size=15)
 
 
 def hashed_name(host, salt):
     mac = hmac.new(salt, host.encode("utf-8"), hashlib.sha1).digest()
     return "|1|%s|%s" % (base64.b64encode(salt).decode("ascii"), base64.b64encode(mac).decode("ascii"))
+
+
+def line_salts(ln):
+    """Per-name salts of a key line (None = plain name). Lines of older replays carry one `salt` for their single name."""
+    if "salts" in ln:
+        return list(ln["salts"])
+    return [ln["salt"]] if ln.get("salt") is not None else [None] * len(ln["hosts"])
+
+
+def line_names(ln):
+    return [h if salt is None else hashed_name(h, salt) for h, salt in zip(ln["hosts"], line_salts(ln))]
 
 
 def render(spec):
@@ -109,7 +128,7 @@ def render(spec):
         if ln["k"] == "junk":
             out.append("b ssh-ed25519 " + pool()["rsa1024"][1] if ln["text"] == "@MISMATCH" else ln["text"])
         else:
-            names = [hashed_name(ln["hosts"][0], ln["salt"])] if ln["salt"] is not None else ln["hosts"]
+            names = line_names(ln)
             typ, b64, _ = pool()[ln["key"]]
             out.append(",".join(names) + ln["sep"] + typ + ln["sep"] + b64 + ln["comment"])
     return "\n".join(out) + "\n"
@@ -120,7 +139,7 @@ def spec_entries(spec):
     out = []
     for ln in spec:
         if ln["k"] == "entry":
-            names = [hashed_name(ln["hosts"][0], ln["salt"])] if ln["salt"] is not None else list(ln["hosts"])
+            names = line_names(ln)
             out.append((names, pool()[ln["key"]][0], pool()[ln["key"]][1]))
     return out
 
@@ -130,7 +149,7 @@ def interesting(spec):
     for ln in spec:
         if ln["k"] != "entry":
             continue
-        if len(ln["hosts"]) > 1 or ln["salt"] is not None:
+        if len(ln["hosts"]) > 1 or any(x is not None for x in line_salts(ln)):
             return True
         for h in ln["hosts"]:
             if (h, ktype(ln["key"])) in seen:
@@ -244,6 +263,8 @@ class Sim:
         self.ops = []
         self.clean = set()  # files loaded and no mutating operation since
         self.loaded = set()
+        self.since = {}  # file index -> kinds of mutating operations since that file was last loaded
+        self.hclasses = set()  # history classes seen (evidence)
         self.dead = False
         self.text = ""  # save() output of self.hk, valid while not self.dirty
         self.dirty = False
@@ -335,6 +356,29 @@ class Sim:
         self.compare(self.hk, entries, "after-op")
         return entries
 
+    def mutated(self, kind):
+        """A mutating operation took effect: no file is 'clean' any more; remember the kind per loaded file."""
+        self.clean.clear()
+        for i in self.loaded:
+            self.since.setdefault(i, set()).add(kind)
+
+    def check_merge(self, i, again):
+        """load() merges: every (name, key) association of the file's key lines is held by the object afterwards,
+        i.e. the entries of the file that list a host are (again) entries that list it - whatever was deleted,
+        replaced or cleared before."""
+        entries = parse_saved(self.saved())
+        held = {h: set(ref_lookup(entries, h)[1]) for h in PROBES}
+        for names, typ, kb in spec_entries(self.files[i]):
+            for n in names:
+                for h in PROBES:
+                    if name_matches(n, h) and (typ, kb) not in held[h]:
+                        self.fail(
+                            "load-merge",
+                            "entry-of-loaded-file-not-held:%s:%s" % ("hashed" if n.startswith("|1|") else "plain", "first-load" if not again else ("loaded-again" if again.endswith(":nothing") else "loaded-again-after-mutation")),
+                            "after load(file %d) [%s] no entry lists %r (name %r) with the %s key ...%s of the file's line %r; entries listing it: %r"
+                            % (i, again or "first load of this file", h, n, typ, kb[-12:], names, sorted((t, b[-12:]) for t, b in held[h])),
+                        )
+
     # -- operations -----------------------------------------------------------
     def op(self, op):
         if self.dead or self.ctx.out_of_time():
@@ -356,8 +400,16 @@ class Sim:
         except Exception as e:
             self.fail("load-raises", exc_bucket(e), repr(e))
             return
+        again = None
+        if i in self.loaded:
+            kinds = sorted(self.since.get(i, ()))
+            again = "again-after:" + ("+".join(kinds) if kinds else "nothing")
+            for k in kinds:
+                self.hclasses.add("history:same-file-loaded-again-after-" + k)
         self.loaded.add(i)
+        self.since[i] = set()
         self.ctx.count("op:load-again" if before else "op:load")
+        self.check_merge(i, again)
         if was_empty:
             self.compare(self.hk, spec_entries(self.files[i]), "first-load-vs-file")
         if before is None:
@@ -439,7 +491,8 @@ class Sim:
         entries = parse_saved(self.saved())
         self.hk.add(host, typ, pk)
         self.dirty = True
-        self.clean.clear()
+        replaced = any(t == typ and host in names for names, t, _ in entries)
+        self.mutated("add-replacement" if replaced else "add")
         self.ctx.count("op:add")
         shadow = any(t == typ and any(n.startswith("|1|") and name_matches(n, host) for n in names) for names, t, _ in entries)
         if shadow:
@@ -458,7 +511,7 @@ class Sim:
             return
         sub[typ] = pk
         self.dirty = True
-        self.clean.clear()
+        self.mutated("subdict-set")
         self.ctx.count("op:set")
         again = self.hk.lookup(host)
         got = None if again is None or typ not in again.keys() else b64(again[typ])
@@ -474,7 +527,10 @@ class Sim:
             raised = False
         except KeyError:
             raised = True
-        self.clean.clear()
+        if not raised:
+            self.mutated("del")
+        else:
+            self.clean.clear()
         self.ctx.count("op:del")
         if raised == present:
             self.fail("del", "KeyError-for-present-host" if present else "no-KeyError-for-absent-host", "del hk[%r], entries listing it before: %r" % (host, present))
@@ -498,10 +554,53 @@ class Sim:
     def op_clear(self):
         self.hk.clear()
         self.dirty = True
-        self.clean.clear()
+        self.mutated("clear")
         self.ctx.count("op:clear")
         if list(self.hk.keys()) or self.saved() != "":
             self.fail("clear", "entries-left", "keys() = %r" % list(self.hk.keys()))
+
+    def check_fresh_replay(self):
+        """A fresh object that goes through the recorded loads (same files, same order) and mutations WITHOUT being
+        looked at in between answers like the long-lived one (which was saved and probed after every step)."""
+        if self.dead or not self.loaded or self.ctx.out_of_time():
+            return
+        fresh = self.HostKeys()
+        try:
+            for op in self.ops:
+                k = op[0]
+                if k == "load":
+                    fresh.load(self.paths[op[1] % len(self.files)])
+                elif k == "add":
+                    fresh.add(op[1], pool()[op[2]][0], pool()[op[2]][2])
+                elif k == "set":
+                    sub = fresh.lookup(op[1])
+                    if sub is not None:
+                        sub[pool()[op[2]][0]] = pool()[op[2]][2]
+                elif k == "del":
+                    try:
+                        del fresh[op[1]]
+                    except KeyError:
+                        pass
+                elif k == "clear":
+                    fresh.clear()
+            mine = self.snapshot()
+            hk, out, text, dirty = self.hk, self.out, self.text, self.dirty
+            self.hk, self.out, self.dirty = fresh, self.out + ".fresh", True
+            try:
+                theirs = self.snapshot()
+            finally:
+                if os.path.exists(self.out):
+                    os.unlink(self.out)
+                self.hk, self.out, self.text, self.dirty = hk, out, text, dirty
+        except Stop:
+            return
+        self.ctx.count("fresh-object-history-replay")
+        diff = [k for k in ("lookups", "keys", "saved") if mine[k] != theirs[k]]
+        if diff:
+            try:
+                self.fail("history-replay", "fresh-object-differs:" + "+".join(diff), "a fresh HostKeys taken through the same loads and mutations differs in %s: observed object %r, fresh object %r" % (diff, mine[diff[0]], theirs[diff[0]]))
+            except Stop:
+                pass
 
     def nontrivial(self):
         return bool(self.loaded) and any(interesting(self.files[i]) for i in self.loaded)
@@ -513,11 +612,17 @@ def classes_of(sim):
         for ln in sim.files[i]:
             if ln["k"] == "junk":
                 out.add("file:junk-line")
-            elif ln["salt"] is not None:
+                continue
+            nh = sum(1 for x in line_salts(ln) if x is not None)
+            if nh:
                 out.add("file:hashed")
-            elif len(ln["hosts"]) > 1:
+                if nh < len(ln["hosts"]):
+                    out.add("file:line-mixing-plain-and-hashed-names")
+                if nh > 1:
+                    out.add("file:line-with-%d-hashed-names" % nh)
+            if len(ln["hosts"]) > 1:
                 out.add("file:multi-host-line")
-    return sorted(out)
+    return sorted(out | sim.hclasses)
 
 
 def run_fixed(ctx, files, ops):
@@ -525,7 +630,10 @@ def run_fixed(ctx, files, ops):
     try:
         for op in ops:
             sim.op(list(op))
-        ctx.case(sim.case(), sim.nontrivial(), classes_of(sim))
+        try:
+            sim.check_fresh_replay()
+        finally:
+            ctx.case(sim.case(), sim.nontrivial(), classes_of(sim))
     finally:
         sim.close()
 
@@ -574,9 +682,12 @@ def make_machine(ctx):
 
         def teardown(self):
             if self.sim is not None:
-                ctx.case(self.sim.case(), self.sim.nontrivial(), classes_of(self.sim))
-                self.sim.close()
-                self.sim = None
+                try:
+                    self.sim.check_fresh_replay()
+                finally:
+                    ctx.case(self.sim.case(), self.sim.nontrivial(), classes_of(self.sim))
+                    self.sim.close()
+                    self.sim = None
 
     return KnownHostsMachine
 
